@@ -64,7 +64,7 @@ check(
 
 check(
     "C01", "block encode->decode identity", "exploration",
-    rule=("rapid draws blocks of 1-4 columns from a catalog of 718 kinds (47 scalar families x 17 compositions up to depth 3, "
+    rule=("rapid draws blocks of 1-4 columns from a catalog of 726 kinds (47 scalar families x 17 compositions up to depth 3, Decimal(P,S) aliases, "
           "plus random tuples), a shared row count, values with boundary bias, a revision from both sides of every "
           "block-affecting feature, an output buffer that is empty or pre-filled with 1-40 junk bytes; each case is run in "
           "the default and the purego build. Distinct = hash of (names, types, reference encoding of the values, revision, "
